@@ -75,7 +75,37 @@ const LOOPED: &[&str] = &[
     "while false { 1; }", "loop { break; }", "let w = 0; while w < 2 { w = w + 1; if w == 1 { continue; } 1 + 2; }",
 ];
 
-const PRELUDE: &str = "let x = 1; let y = 2; let a = [1, 2, 3]; let g = fn(p) { p }; let g2 = fn(p, q) { q }; let g3 = fn(p, q, r) { r }; fn q0() { } fn q1() { return; } fn q2(n) { if n > 1 { return 1; } let u = 2; } let i = 0;\n";
+/// items of a block body (F4)
+const BODY_ITEMS: &[&str] = &[
+    "1;",
+    "let q = 1;",
+    "{ 1 }",
+    "{ }",
+    "{ let r = 1; }",
+    "q0();",
+    "while false { }",
+    "if c { 1 }",
+    "x = 2;",
+    "match i { _ => 1 }",
+    "2",
+];
+/// block-carrying constructs (F4); □ is the body
+const HOLDERS: &[&str] = &[
+    "if c { □ }",
+    "if c { 1 } else { □ }",
+    "if c { □ } else { 1 }",
+    "if c { □ } else if i > 2 { □ } else { □ }",
+    "match i % 2 { 0 => { □ } _ => { 1 } }",
+    "match i % 2 { 0 => { 1 } _ => { □ } }",
+    "match i % 3 { 0 => { □ }, 1 => { □ }, _ => { □ } }",
+    "while j < 1 { j = j + 1; □ }",
+    "loop { □ break; }",
+    "{ □ }",
+    "fn() { □ }()",
+    "let w = if c { □ } else { □ }",
+];
+
+const PRELUDE: &str ="let x = 1; let y = 2; let a = [1, 2, 3]; let g = fn(p) { p }; let g2 = fn(p, q) { q }; let g3 = fn(p, q, r) { r }; fn q0() { } fn q1() { return; } fn q2(n) { if n > 1 { return 1; } let u = 2; } let i = 0;\n";
 
 #[derive(Clone)]
 struct Case {
@@ -156,6 +186,25 @@ impl P07 {
             cases.push(Case { family: "F3 looped-statement", text: format!("{}while i < #N# {{ i = i + 1; {} }}\nx;", PRELUDE, e), pending: 0, looping: true });
             cases.push(Case { family: "F3 looped-statement-in-fn", text: format!("{}fn lp() {{ let i = 0; while i < #N# {{ i = i + 1; {} }} }} lp();\nx;", PRELUDE, e), pending: 0, looping: true });
         }
+        // F4: block grammar — every body of <= 2 items (incl. empty and nested blocks) in every block-carrying
+        // construct, as a statement with and without the terminating ';', at top level and inside a function
+        let mut bodies: Vec<String> = vec![String::new()];
+        for a in BODY_ITEMS {
+            bodies.push(a.to_string());
+            for b in BODY_ITEMS {
+                bodies.push(format!("{} {}", a, b));
+            }
+        }
+        for holder in HOLDERS {
+            for body in &bodies {
+                for term in ["", ";"] {
+                    let stmt = format!("{}{}", holder.replace("□", body), term);
+                    let lp = format!("while i < #N# {{ i = i + 1; let c = i % 2 == 0; let j = 0; {} }}", stmt);
+                    cases.push(Case { family: "F4 block-grammar", text: format!("{}{}\nx;", PRELUDE, lp), pending: 0, looping: true });
+                    cases.push(Case { family: "F4 block-grammar-in-fn", text: format!("{}fn lp() {{ let i = 0; {} }} lp();\nx;", PRELUDE, lp), pending: 0, looping: true });
+                }
+            }
+        }
         // F2: statement sequences from the C02 pool (no jumps in operand positions)
         for t in pool_programs(tier) {
             cases.push(Case { family: "F2 pool-sequence", text: t, pending: 0, looping: false });
@@ -203,6 +252,8 @@ impl Property for P07 {
             let bc = match front(&src) {
                 Front::Compiled(bc) => bc,
                 Front::CompileError(m, _) => return Ok((format!("compile-error"), 0, 0, 0)),
+                // the block grammar also produces texts the parser rejects (e.g. an unterminated item before another)
+                Front::ParseErrors(_) if c.family.starts_with("F4") => return Ok((format!("compile-error"), 0, 0, 0)),
                 Front::ParseErrors(e) => return Err(format!("harness program does not parse: {:?}\n{}", e, src)),
             };
             let mut funcs = functions_of(&bc);
